@@ -44,6 +44,7 @@ class _Graph:
         self.cons: dict = {}
         self.srcs: dict = {}
         self.prod: dict = {}
+        self.bprod: dict = {}          # Bundle name -> [(source, type)]
         self.ints = {s[2] for s in stmts if s[0] == "decl" and s[1] == "int"}
         self.n = 0
         self.logic_chain = False
@@ -96,8 +97,69 @@ class _Graph:
                 out += self.flat_operands(x)
         return out
 
+    # ---- bundles: a bundle value is a SET of sources joined by wires (no combinator of its own)
+    def is_bundle(self, e) -> bool:
+        if not isinstance(e, list) or not e:
+            return False
+        k = e[0]
+        if k == "var":
+            return e[1] in self.bprod
+        if k in ("blit", "eout"):
+            return True
+        if k == "bin":
+            return self.is_bundle(e[2])
+        if k == "sel":
+            c = e[1]
+            return self.is_bundle(e[2]) or (c[0] == "bin" and self.is_bundle(c[2]))
+        return False
+
+    def bsources(self, e):
+        """[(source, type)] behind a bundle-valued expression."""
+        k = e[0]
+        if k == "var":
+            return list(self.bprod.get(e[1], []))
+        if k == "eout":
+            return [(("ent", e[1]), "?")]
+        if k == "blit":
+            out = []
+            for x in e[1]:
+                out += self.bsources(x) if self.is_bundle(x) else self.sources_of(x)
+            return out
+        sid = self.fresh("bop")            # each-arithmetic, filter, gate: one combinator, wildcard reads
+        if k == "bin":
+            for (s_, _t) in self.bsources(e[2]):
+                self.edge(s_, "?", sid)
+            for (s_, t_) in self.sources_of(e[3]):
+                self.edge(s_, t_, sid)
+                self.edge(s_, "?", sid)
+        elif k == "sel":
+            c = e[1]
+            sides = [c[2], c[3]] if c[0] == "bin" else [c]
+            for side in sides + [e[2]]:
+                if self.is_bundle(side):
+                    for (s_, _t) in self.bsources(side):
+                        self.edge(s_, "?", sid)
+                else:
+                    for (s_, t_) in self.sources_of(side):
+                        self.edge(s_, t_, sid)
+                        self.edge(s_, "?", sid)
+        return [(sid, "?")]
+
+    def sources_of(self, e):
+        """[(source, type)] a consumer of the value of e is wired to (empty for a plain integer)."""
+        k = e[0]
+        if self.is_bundle(e):
+            return [(s_, "?") for (s_, _t) in self.bsources(e)]
+        if k in ("any", "all"):
+            return [(s_, "?") for (s_, _t) in self.bsources(e[1])] if self.is_bundle(e[1]) else []
+        if k == "bsel":
+            # a bare selection reads the bundle's own network, picking one type
+            return [(s_, e[2]) for (s_, _t) in self.bsources(e[1])] if self.is_bundle(e[1]) else []
+        src = self.source(e)
+        return [] if src is None else [(src, self.typ(e))]
+
     def source(self, e):
-        """Source id of the value of e (None for a plain integer)."""
+        """Source id of the value of a scalar e (None for a plain integer)."""
         k = e[0]
         if k == "lit":
             return None
@@ -123,26 +185,28 @@ class _Graph:
                 isinstance(x, list) and x[0] == "bin" and (x[1] in _CMP or x[1] in _LOGIC) for x in (e[2], e[3])):
             self.logic_chain = True
         for x in kids:
-            self.edge(self.source(x), self.typ(x), sid)
+            for (s_, t_) in self.sources_of(x):
+                self.edge(s_, t_, sid)
             for y in self.flat_operands(x):
-                self.edge(self.source_cached(y), self.typ(y), sid)
+                for (s_, t_) in self.leaf_sources(y):
+                    self.edge(s_, t_, sid)
         return sid
 
-    def source_cached(self, e):
+    def leaf_sources(self, e):
         # operands reached through flattening: leaves only (operators were numbered by source())
-        if e[0] == "var":
-            return self.source(e)
-        if e[0] == "read":
-            return ("mem", e[1])
-        return None
+        if e[0] in ("var", "read", "any", "all", "bsel"):
+            return self.sources_of(e)
+        return []
 
     def sink_stmt(self, sid, exprs):
         for x in exprs:
             if x is None:
                 continue
-            self.edge(self.source(x), self.typ(x), sid)
+            for (s_, t_) in self.sources_of(x):
+                self.edge(s_, t_, sid)
             for y in self.flat_operands(x):
-                self.edge(self.source_cached(y), self.typ(y), sid)
+                for (s_, t_) in self.leaf_sources(y):
+                    self.edge(s_, t_, sid)
 
 
 def crosstalk_possible(stmts, inputs) -> bool:
@@ -150,8 +214,6 @@ def crosstalk_possible(stmts, inputs) -> bool:
     for s in stmts:
         if s[0] in ("for", "func", "import", "raw", "expr"):
             return True
-    if _has(stmts, _BUNDLE):
-        return True
     g = _Graph(stmts, inputs)
     for s in stmts:
         t = s[0]
@@ -169,7 +231,12 @@ def crosstalk_possible(stmts, inputs) -> bool:
         elif t == "mem":
             # the cell's own gates read the cell's network
             g.edge(("mem", s[1]), s[2] if isinstance(s[2], str) else "?", ("cell", s[1]))
-        elif t == "decl" and s[1] in ("Bundle", "Entity"):
+        elif t == "decl" and s[1] == "Bundle":
+            g.bprod[s[2]] = g.bsources(s[3]) if g.is_bundle(s[3]) else g.sources_of(s[3])
+            # the anchor of an exported bundle shows everything on its sources' network
+            for (s_, _t) in g.bprod[s[2]]:
+                g.edge(s_, "?", ("a", s[2]))
+        elif t == "decl" and s[1] == "Entity":
             return True
         elif t == "write":
             g.sink_stmt(("w", s[1], g.fresh("w")), [s[2], s[3]])
